@@ -131,6 +131,13 @@ impl<'a> Tiler<'a> {
                 let mut w = Writer::new(Vec::new());
                 w.write_event(ev.borrow()).map_err(|e| format!("writer failed: {}", e))?;
                 let written = w.into_inner();
+                // the same event through a sink that accepts 1..=7 bytes per (plain or vectored) write
+                let mut pw = Writer::new(crate::sources::PartialSyncSink::new(1 + k % 7, 0x0040_0801_0020_0104));
+                pw.write_event(ev.borrow()).map_err(|e| format!("writer failed on a sink with partial writes: {}", e))?;
+                let pwritten = pw.into_inner().out;
+                if pwritten != written {
+                    return Err(format!("call {}: event {:?}: writer produced {:?} into a Vec but {:?} through a sink accepting {} bytes per write", k, ev, B::show(&written), B::show(&pwritten), 1 + k % 7));
+                }
                 // (offset convention, BOM inside the first span?) alternatives
                 let mut alts: Vec<(usize, bool)> = vec![];
                 for o in offs {
@@ -328,6 +335,12 @@ fn run(ctx: &Ctx) {
         },
         check,
     );
+    // offset and length sweep, large inputs (see gen.rs): borrowing reader and buffered reader with
+    // pieces of 0 (whole), 1, 7, 16, 33 and 64 bytes
+    let (pmax, qmax, vars) = ctx.tier.pick((130u64, 70u64, 2u64), (260, 140, 4));
+    let pieces: [Option<u8>; 8] = [None, None, Some(0), Some(1), Some(7), Some(16), Some(33), Some(64)];
+    ctx.run_indexed("offset-and-length-sweep", gen::sweep_count(pmax, qmax, vars), |i| Some(Case { input: B(gen::sweep_nth(i, pmax, qmax, vars)), piece: pieces[((i / 3) % 8) as usize] }), check);
+    ctx.run_indexed("large-inputs", gen::big_count() * 3, |i| Some(Case { input: B(gen::big_nth(i / 3)), piece: [None, Some(0), Some(64)][(i % 3) as usize] }), check);
 }
 
 fn replay(_stage: &str, case: &Value) -> Result<Verdict, String> {
